@@ -28,6 +28,9 @@ def run(drv, prog, inputs):
             setattr(ctx, n, rt.PrivVal(spec["v"]))
         elif spec["ty"] == "bool":
             setattr(ctx, n, bo.PrivValBool(spec["v"]))
+        elif spec["ty"] == "fxp":
+            # v is the REPRESENTATION (scaled integer) at the resolution in force
+            setattr(ctx, n, drv.fx.PrivValFxp(spec["v"] / (1 << drv.fx.resolution)))
         elif spec["ty"] == "array":
             setattr(ctx, n, drv.ar.Array([rt.PrivVal(v) for v in spec["v"]]))
         elif spec["ty"] == "matrix":
